@@ -10,9 +10,9 @@ package c10
 import (
 	"fmt"
 	"math/rand/v2"
+	"os"
 	"runtime/debug"
 	"strings"
-	"sync"
 	"sync/atomic"
 
 	"github.com/ohler55/slip"
@@ -41,9 +41,13 @@ type Case struct {
 	Pre   []string   `json:"pre,omitempty"`   // definitions made before the history starts
 	Ops   []string   `json:"ops,omitempty"`   // seq: the history; conc/park: unused
 	Sweep bool       `json:"sweep,omitempty"` // seq: after the history call every class tuple once more
-	Clean bool       `json:"clean,omitempty"` // calls with two or more applicable :around methods are skipped
+	InGF  bool       `json:"ingf,omitempty"`  // seq: Pre is given as :method options of the defgeneric form
 	Thr   [][]string `json:"thr,omitempty"`   // conc: one op list per goroutine; park: [caller, definer]
 	PSeed uint64     `json:"pseed,omitempty"` // conc: seed of the schedule perturbation
+	// NoLin (conc): no logical clock and no linearizability check: the
+	// goroutines share nothing with the harness that would order them, so the
+	// race detector sees every unordered pair of accesses inside slip
+	NoLin bool `json:"nolin,omitempty"`
 }
 
 // ---------------------------------------------------------------------------
@@ -116,15 +120,29 @@ var (
 	clsName = map[string][]string{
 		"clos": {"c10k0", "c10k1", "c10k2", "c10k3"},
 		"num":  {"real", "rational", "integer", "fixnum"},
+		"dia":  {"c10d0", "c10d1b", "c10d1a", "c10d2"},
 	}
 )
 
 // traces collects what the method bodies report, keyed by the first argument
-// of the generic function call (a fresh object per call in concurrent cases).
-var traces = struct {
-	mu sync.Mutex
-	m  map[any][]string
-}{m: map[any][]string{}}
+// of the generic function call. A buffer is registered for the object before
+// the call is made (by the goroutine that owns the case, while no other
+// goroutine of the case runs) and appended to only by the goroutine making the
+// call, so the trace functions take no lock: a lock here would order the
+// goroutines of a concurrent case and hide data races from the race detector.
+var traces = map[any]*[]string{}
+
+func expectTrace(obj slip.Object) *[]string {
+	buf := new([]string)
+	traces[keyOf(obj)] = buf
+	return buf
+}
+
+func record(obj slip.Object, tag string) {
+	if buf := traces[keyOf(obj)]; buf != nil {
+		*buf = append(*buf, tag)
+	}
+}
 
 type trFunc struct {
 	slip.Function
@@ -136,9 +154,7 @@ func (f *trFunc) Call(s *slip.Scope, args slip.List, depth int) slip.Object {
 		panic(fmt.Sprintf("c10-tr: %d arguments", len(args)))
 	}
 	tag, _ := args[0].(slip.String)
-	traces.mu.Lock()
-	traces.m[keyOf(args[1])] = append(traces.m[keyOf(args[1])], string(tag))
-	traces.mu.Unlock()
+	record(args[1], string(tag))
 	return nil
 }
 
@@ -155,9 +171,7 @@ func (f *outFunc) Call(s *slip.Scope, args slip.List, depth int) slip.Object {
 		panic(fmt.Sprintf("c10-out: %d arguments", len(args)))
 	}
 	tag, _ := args[0].(slip.String)
-	traces.mu.Lock()
-	traces.m[keyOf(args[2])] = append(traces.m[keyOf(args[2])], string(tag)+">")
-	traces.mu.Unlock()
+	record(args[2], string(tag)+">")
 	return slip.List{tag, args[1]}
 }
 
@@ -171,15 +185,6 @@ func keyOf(obj slip.Object) any {
 		return "s:" + string(to)
 	}
 	return obj
-}
-
-func takeTrace(obj slip.Object) []string {
-	traces.mu.Lock()
-	k := keyOf(obj)
-	t := traces.m[k]
-	delete(traces.m, k)
-	traces.mu.Unlock()
-	return t
 }
 
 func initWorld() {
@@ -215,6 +220,10 @@ func initWorld() {
 		"(defclass c10k2 (c10k1) ())",
 		"(defclass c10k3 (c10k2) ())",
 		"(defclass c10kx () ())",
+		"(defclass c10d0 () ())",
+		"(defclass c10d1a (c10d0) ())",
+		"(defclass c10d1b (c10d0) ())",
+		"(defclass c10d2 (c10d1a c10d1b) ())",
 	} {
 		if _, err := sl.Eval(world, src); err != nil {
 			panic("c10 world: " + src + ": " + err.String())
@@ -270,6 +279,9 @@ func defSrc(gf, fam string, m *ref.Method) string {
 		next = "(call-next-method)"
 	case ref.BodyFlat:
 		return fmt.Sprintf(`(defmethod %s :around %s (c10-tr "%s<" x) (c10-out "%s" %s x))`, gf, ll, tag, tag, next)
+	case ref.BodyTwice:
+		return fmt.Sprintf(`(defmethod %s :around %s (c10-tr "%s<" x) %s (let ((r %s)) (c10-tr "%s>" x) (list "%s" r)))`,
+			gf, ll, tag, next, next, tag, tag)
 	}
 	return fmt.Sprintf(`(defmethod %s :around %s (c10-tr "%s<" x) (let ((r %s)) (c10-tr "%s>" x) (list "%s" r)))`,
 		gf, ll, tag, next, tag, tag)
@@ -293,21 +305,25 @@ func remSrc(gf, fam, qual string, spec []int) string {
 // can overlap.
 const poolSize = 64
 
-var pool [5][]slip.Object
+var pool = map[string]*[5][]slip.Object{}
 
 func fillPool() {
-	for ci := 0; ci < 5; ci++ {
-		name := "c10kx"
-		if ci < 4 {
-			name = clsName["clos"][ci]
-		}
-		for k := 0; k < poolSize; k++ {
-			obj, err := sl.Eval(world, "(make-instance '"+name+")")
-			if err != nil {
-				panic("make-instance: " + err.String())
+	for _, fam := range []string{"clos", "dia"} {
+		var p [5][]slip.Object
+		for ci := 0; ci < 5; ci++ {
+			name := "c10kx"
+			if ci < 4 {
+				name = clsName[fam][ci]
 			}
-			pool[ci] = append(pool[ci], obj)
+			for k := 0; k < poolSize; k++ {
+				obj, err := sl.Eval(world, "(make-instance '"+name+")")
+				if err != nil {
+					panic("make-instance: " + err.String())
+				}
+				p[ci] = append(p[ci], obj)
+			}
 		}
+		pool[fam] = &p
 	}
 }
 
@@ -332,7 +348,7 @@ func argObj(fam string, class int, uniq int64) slip.Object {
 	if class == ref.Out {
 		ci = 4
 	}
-	return pool[ci][int(uniq)%poolSize]
+	return pool[fam][ci][int(uniq)%poolSize]
 }
 
 // ---------------------------------------------------------------------------
@@ -346,9 +362,17 @@ type gfun struct {
 	ver   int
 }
 
-func newGF(fam string, ar int) (*gfun, *sl.Err) {
+// newGF defines a fresh generic function; methods are given as :method
+// options of the defgeneric form.
+func newGF(fam string, ar int, methods ...*ref.Method) (*gfun, *sl.Err) {
 	g := &gfun{name: fmt.Sprintf("c10g%d", gfCount.Add(1)), fam: fam, ar: ar, scope: world.NewScope()}
-	_, err := sl.Eval(g.scope, fmt.Sprintf("(defgeneric %s (%s))", g.name, strings.Join(params[:ar], " ")))
+	var b strings.Builder
+	fmt.Fprintf(&b, "(defgeneric %s (%s)", g.name, strings.Join(params[:ar], " "))
+	for _, m := range methods {
+		b.WriteString(" " + strings.Replace(defSrc(g.name, fam, m), "(defmethod "+g.name, "(:method", 1))
+	}
+	b.WriteString(")")
+	_, err := sl.Eval(g.scope, b.String())
 	return g, err
 }
 
@@ -372,8 +396,10 @@ func (g *gfun) call(s *slip.Scope, classes []int, uniq int64) observed {
 		src.WriteString(" " + params[i])
 	}
 	src.WriteString(")")
+	buf := expectTrace(first)
 	res, err := sl.Eval(s, src.String())
-	o := observed{Trace: takeTrace(first), Err: err}
+	delete(traces, keyOf(first))
+	o := observed{Trace: *buf, Err: err}
 	if err == nil {
 		o.Value = sl.Show(res)
 	}
@@ -391,9 +417,10 @@ func aroundClass(n int) string {
 	return "2+"
 }
 
-// diffKind names the first thing that differs between the expected and the
-// observed trace: a marker that never shows up (missing), a marker of a method
-// that is not applicable or no longer defined (stale / extra), or order.
+// diffKind names what differs between the expected and the observed trace: a
+// marker of a method that is no longer defined (stale: a removed method or a
+// replaced version ran), an expected marker that never shows up (missing), a
+// marker of a defined but not applicable method (extra), a repetition, or order.
 func diffKind(st *ref.State, want, got []string) string {
 	inGot := map[string]int{}
 	for _, t := range got {
@@ -403,21 +430,22 @@ func diffKind(st *ref.State, want, got []string) string {
 	for _, t := range want {
 		inWant[t]++
 	}
-	for _, t := range want {
-		if inGot[t] == 0 {
-			return "missing:" + t[:1]
-		}
-	}
 	current := map[string]bool{}
 	for _, m := range st.M {
 		current[ref.Tag(m.Qual, m.Spec, m.Ver)] = true
 	}
 	for _, t := range got {
+		if inWant[t] == 0 && !current[strings.TrimRight(t, "<>")] {
+			return "stale:" + t[:1]
+		}
+	}
+	for _, t := range want {
+		if inGot[t] == 0 {
+			return "missing:" + t[:1]
+		}
+	}
+	for _, t := range got {
 		if inWant[t] == 0 {
-			base := strings.TrimRight(t, "<>")
-			if !current[base] {
-				return "stale:" + t[:1]
-			}
 			return "extra:" + t[:1]
 		}
 	}
@@ -525,12 +553,23 @@ func classTuples(ar int) [][]int {
 }
 
 func execSeq(x *fw.Ctx, c Case) {
-	g, err := newGF(c.Fam, c.Ar)
+	st := ref.NewFam(c.Fam)
+	var inGF []*ref.Method
+	if c.InGF {
+		for k, s := range c.Pre {
+			o := parseOp(s)
+			m := &ref.Method{Qual: o.qual, Spec: o.spec, Ver: k + 1, Body: o.body}
+			inGF = append(inGF, m)
+			st.Define(m)
+			x.Cover("defgeneric:method-option")
+		}
+	}
+	g, err := newGF(c.Fam, c.Ar, inGF...)
 	if err != nil {
 		x.Fail("defgeneric-error", "defgeneric failed: %s", err)
 		return
 	}
-	st := ref.New()
+	g.ver = len(inGF)
 	var log []string
 	x.Observe(map[string]any{"generic": g.name, "log": &log})
 	lastMut := "none"
@@ -539,10 +578,6 @@ func execSeq(x *fw.Ctx, c Case) {
 	history := func(k int) string { return strings.Join(append(append([]string{}, c.Pre...), c.Ops[:k]...), " ") }
 	doCall := func(k int, classes []int, sweep bool) {
 		want := st.Dispatch(classes)
-		if c.Clean && 2 <= want.NArounds {
-			x.Cover("avoided:call-with-2+-arounds")
-			return
-		}
 		got := g.call(g.scope, classes, 0)
 		nCalls++
 		calledSince = true
@@ -627,9 +662,11 @@ func execSeq(x *fw.Ctx, c Case) {
 		}
 		return true
 	}
-	for _, s := range c.Pre {
-		if !apply(0, s, true) {
-			return
+	if !c.InGF {
+		for _, s := range c.Pre {
+			if !apply(0, s, true) {
+				return
+			}
 		}
 	}
 	for k, s := range c.Ops {
@@ -676,6 +713,8 @@ var blocks = []block{
 		specs: [][]int{{ref.T}, {1}, {2}}, calls: [][]int{{0}, {1}, {3}}},
 	{name: "x1-num", fam: "num", ar: 1, quals: []string{ref.Primary, ref.Before},
 		specs: [][]int{{0}, {2}, {3}}, calls: [][]int{{0}, {2}, {3}}},
+	{name: "x1-dia", fam: "dia", ar: 1, quals: []string{ref.Primary, ref.Before},
+		specs: [][]int{{0}, {1}, {2}}, calls: [][]int{{1}, {2}, {3}}},
 	{name: "x2-pb", fam: "clos", ar: 2, quals: []string{ref.Primary, ref.Before},
 		specs: [][]int{{0, 0}, {1, 0}, {0, 1}}, calls: [][]int{{0, 0}, {1, 1}, {1, 0}}},
 	{name: "x2-pa-t", fam: "clos", ar: 2, quals: []string{ref.Primary, ref.After},
@@ -753,17 +792,20 @@ func randArgs(r *rand.Rand, ar int) []int {
 	return s
 }
 
-// genHistory produces a random history of n ops. In clean mode at most one
-// :around method exists at any time (a listed finding: the second applicable
-// :around method is skipped), so every call is judged in full.
-func genHistory(r *rand.Rand, fam string, ar, n int, clean bool) []string {
-	st := ref.New()
+// genHistory produces a random history of n ops that continues from the
+// methods in pre.
+func genHistory(r *rand.Rand, fam string, ar, n int, pre []string) []string {
+	st := ref.NewFam(fam)
 	var ops []string
 	// the population target changes along the history so that the table
 	// repeatedly crosses 0 -> 1 -> 2 -> 1 methods and also grows large
 	target := 1 + r.IntN(3)
-	var around *ref.Method
 	ver := 0
+	for _, s := range pre {
+		o := parseOp(s)
+		ver++
+		st.Define(&ref.Method{Qual: o.qual, Spec: o.spec, Ver: ver, Body: o.body})
+	}
 	for len(ops) < n {
 		if r.IntN(12) == 0 {
 			target = []int{0, 1, 2, 3, 6, 12}[r.IntN(6)]
@@ -809,17 +851,10 @@ func genHistory(r *rand.Rand, fam string, ar, n int, clean bool) []string {
 			}
 			body := 0
 			if q == ref.Around {
-				body = []int{0, 0, 0, 1, 2, 3}[r.IntN(6)]
-				if clean && around != nil && st.Has(around.Qual, around.Spec) && ref.Key(q, spec) != ref.Key(around.Qual, around.Spec) {
-					ops = append(ops, remOp(ref.Around, around.Spec))
-					st.Remove(ref.Around, around.Spec)
-				}
+				body = []int{0, 0, 0, 1, 2, 3, 5}[r.IntN(7)]
 			}
 			ver++
 			m := &ref.Method{Qual: q, Spec: spec, Ver: ver, Body: body}
-			if q == ref.Around {
-				around = m
-			}
 			st.Define(m)
 			ops = append(ops, defOp(q, spec, body))
 		default: // remove
@@ -857,6 +892,15 @@ func tierSizes(tier string) sizes {
 	} else {
 		s.short, s.long, s.conc, s.park = 12000, 150, 300, len(parkCases)
 	}
+	// development knob (never set by registered commands): C10_ONLY=conc
+	// keeps only the probes, the directed interleavings and the concurrent
+	// histories; C10_ONLY=seq drops the concurrent and the exhaustive blocks.
+	switch os.Getenv("C10_ONLY") {
+	case "conc":
+		s.short, s.long, s.exh = 0, 0, 0
+	case "seq": // probes, directed interleavings and random histories only
+		s.conc, s.exh = 0, 0
+	}
 	return s
 }
 
@@ -879,12 +923,51 @@ var probes = []Case{
 		Ops: []string{"Dp0", "Dw1", "C3", "C0", "Dw1~1", "C3", "Dw1~2", "C3", "Dw1~3", "C3", "Rp0", "C3", "Dw1~2", "C3", "Db0", "C3", "Rw1", "C3"}},
 	{Kind: "seq", Fam: "clos", Ar: 2, Note: "probe-around-bodies", Sweep: true,
 		Ops: []string{"Dp00", "Dw10", "C33", "C03", "Dw10~1", "C33", "Dw10~2", "C13", "Dw10~3", "C13", "Da0t", "C2x", "Rw10", "C33"}},
+	{Kind: "seq", Fam: "clos", Ar: 1, Note: "probe-around-bodies", Sweep: true,
+		Ops: []string{"Dp0", "Db1", "Da0", "Dw1~5", "C3", "C0", "Rp0", "C3", "Rb1", "Ra0", "C3"}},
+	{Kind: "seq", Fam: "dia", Ar: 1, Note: "probe-diamond", Sweep: true,
+		Ops: []string{"Dp0", "Dp1", "Dp2", "C3", "C2", "C1", "C0", "Db1", "Db2", "Da1", "Da2", "C3", "C2", "C1", "Rp2", "C3", "C2", "Dp3", "C3"}},
+	{Kind: "seq", Fam: "dia", Ar: 2, Note: "probe-diamond", Sweep: true,
+		Ops: []string{"Dp00", "Dp12", "Dp21", "Db11", "Db22", "Da1t", "Dat2", "C33", "C12", "C21", "C11", "C22", "C30"}},
+	{Kind: "seq", Fam: "clos", Ar: 2, Note: "probe-defgeneric-options", Sweep: true, InGF: true, Pre: []string{"Dp00", "Db10", "Da01", "Dp00"},
+		Ops: []string{"C33", "C00", "Dp11", "C33", "Rb10", "C33", "Rp00", "C10"}},
 	{Kind: "seq", Fam: "clos", Ar: 1, Note: "probe-stacked-arounds",
 		Ops: []string{"Dp0", "Dw0", "Dw1", "C3", "Dw2", "C3", "Dw3", "C3", "C1", "Rw1", "C3", "Dw0~1", "C3", "Dw2~2", "C3"}},
 	{Kind: "seq", Fam: "clos", Ar: 2, Note: "probe-stacked-arounds",
 		Ops: []string{"Dp00", "Dw00", "Dw10", "C33", "Dw01", "C33", "C03", "Dw11~2", "C33", "Rw00", "C33"}},
 	{Kind: "seq", Fam: "clos", Ar: 2, Note: "probe-order", Sweep: true,
 		Ops: []string{"Dp00", "Dp10", "Dp01", "Dp11", "Db00", "Db10", "Db01", "Db11", "Da00", "Da10", "Da01", "Da11", "Db3t", "Dat3", "Dp22", "C33", "C12", "C21"}},
+}
+
+func rep(n int, ops ...string) []string {
+	var out []string
+	for ; 0 < n; n-- {
+		out = append(out, ops...)
+	}
+	return out
+}
+
+func init() {
+	// concurrent probes (fixed for every seed): the shapes on which the
+	// pinned tree has data races, so that the set of race signatures does not
+	// depend on what the seeded generator happens to produce
+	cp := func(ar int, pre []string, thr ...[]string) {
+		for k := 0; k < 6; k++ {
+			probes = append(probes, Case{Kind: "conc", Fam: "clos", Ar: ar, Note: "conc-probe", Pre: pre, Thr: thr, PSeed: uint64(1000 + k), NoLin: true})
+		}
+	}
+	// callers only, through an :around method
+	cp(1, []string{"Dp0", "Dw0~4"}, rep(5, "C3"), rep(5, "C2"), rep(5, "C3"), rep(5, "C1"))
+	// callers only, through two stacked :around methods
+	cp(1, []string{"Dp0", "Db1", "Dw0~4", "Dw1~4"}, rep(5, "C3"), rep(5, "C2"), rep(5, "C3"), rep(5, "C1"))
+	// a definer changing daemons of an existing specializer tuple while calls run
+	cp(1, []string{"Dp0"}, rep(3, "Db0", "Rb0", "Da0", "Ra0"), rep(6, "C3"), rep(6, "C1"), rep(6, "C3"))
+	// replacement and removal of the primary method
+	cp(1, []string{"Dp0", "Dp1"}, rep(3, "Dp1", "Rp1", "Dp1", "Db1"), rep(6, "C3"), rep(6, "C1"), rep(6, "C2"))
+	// removal of everything under an :around method (call-next-method finds no next method)
+	cp(1, []string{"Dp0", "Dw1~4"}, rep(4, "Rp0", "Dp0", "Da0"), rep(6, "C3"), rep(6, "C2"), rep(6, "C3"))
+	// two definers, two arguments
+	cp(2, []string{"Dp00", "Db10"}, rep(3, "Da00", "Ra00", "Db00"), rep(3, "Rb10", "Db10", "Dp10"), rep(5, "C33"), rep(5, "C13"), rep(5, "C31"))
 }
 
 func gen(r *rand.Rand, i int, tier string) Case {
@@ -901,18 +984,21 @@ func gen(r *rand.Rand, i int, tier string) Case {
 		return genConc(r, i, tier)
 	}
 	i -= s.conc
-	fam := "clos"
-	if r.IntN(5) == 0 {
-		fam = "num"
-	}
+	fam := []string{"clos", "clos", "clos", "clos", "dia", "dia", "num"}[r.IntN(7)]
 	ar := 1 + r.IntN(2)
-	clean := r.IntN(6) != 0
+	// one history in four starts from methods given as :method options of defgeneric
+	var pre []string
+	if r.IntN(4) == 0 {
+		for k := 1 + r.IntN(3); 0 < k; k-- {
+			pre = append(pre, defOp(allQuals[r.IntN(4)], randSpec(r, ar), 0))
+		}
+	}
 	if i < s.long {
-		return Case{Kind: "seq", Fam: fam, Ar: ar, Note: "long", Ops: genHistory(r, fam, ar, 200, clean), Sweep: true, Clean: clean}
+		return Case{Kind: "seq", Fam: fam, Ar: ar, Note: "long", Pre: pre, InGF: pre != nil, Ops: genHistory(r, fam, ar, 200, pre), Sweep: true}
 	}
 	i -= s.long
 	if i < s.short {
-		return Case{Kind: "seq", Fam: fam, Ar: ar, Note: "len7", Ops: genHistory(r, fam, ar, 3+r.IntN(5), clean), Sweep: r.IntN(2) == 0, Clean: clean}
+		return Case{Kind: "seq", Fam: fam, Ar: ar, Note: "len7", Pre: pre, InGF: pre != nil, Ops: genHistory(r, fam, ar, 3+r.IntN(5), pre), Sweep: r.IntN(2) == 0}
 	}
 	i -= s.short
 	return genExh(i, tier)
@@ -935,13 +1021,12 @@ func exec(x *fw.Ctx, c Case) {
 func init() {
 	fw.Register(fw.Spec[Case]{
 		ID: "C10",
-		Rule: "a case is a history of defmethod / remove-method / call on one fresh generic function (1 or 2 required arguments; class chain of 4 defclass classes " +
-			"or real>rational>integer>fixnum, plus t and an unrelated class); every call is judged against a cache-free reference dispatcher (ordered trace, value, condition). " +
+		Rule: "a case is a history of defmethod / remove-method / call on one fresh generic function (1 or 2 required arguments; class chain of 4 defclass classes, " +
+			"a 4-class diamond, or real>rational>integer>fixnum, plus t and an unrelated class); every call is judged against a cache-free reference dispatcher (ordered trace, value, condition). " +
 			"Blocks: fixed probes (fast path 0->1->2->1 methods, :around body variants, stacked :around); directed interleavings (caller parked between effective-method lookup and " +
 			"execution while definitions change); concurrent histories (<= 8 goroutines, <= 30 ops, porcupine-checked); random histories of 200 ops and of length <= 7 over the full " +
-			"alphabet; then ALL histories of length 4 (quick) / 5 (thorough) ending in a call over eight 15-symbol alphabets (2 qualifiers x 3 specializer tuples x define/remove, 3 call tuples). " +
-			"distinct = distinct case JSON; non-trivial = at least one judged call and one change of the method table. " +
-			"Avoided in 5/6 of the random histories (listed finding): more than one :around method at a time.",
+			"alphabet (one in four starting from :method options of defgeneric); then ALL histories of length 4 (quick) / 5 (thorough) ending in a call over nine 15-symbol alphabets (2 qualifiers x 3 specializer tuples x define/remove, 3 call tuples). " +
+			"distinct = distinct case JSON; non-trivial = at least one judged call and one change of the method table.",
 		N:        nCases,
 		Gen:      gen,
 		Exec:     exec,
